@@ -151,6 +151,7 @@ PROPS["C02"] = dict(
         H(MRT, "c02_past_start_time", bounds="real Builder::start_time(s).build(), s<=4, add_event(t<s) must panic",
           expect_fail=["Cannot add past event to calender queue"], must_fail=["Cannot add past event to calender queue"]),
         H(MRT, "c02_future_start_time", fetch=4, bounds="real Builder::start_time(s).build(), s<=4, add_event(s<=t<=6) accepted, start(), dispatched at t"),
+        H(MRT, "c02_start_time_two_events_n2t3", fetch=4, mem=14, bounds="n=2,t=3ns (buckets wide enough to hold a non-start event of the start bucket); real Builder::start_time(s<=3).build(); two events at symbolic times in [s,5]; two dispatch_event calls"),
         H(MRT, "c02_past_after_dispatch", fetch=4, bounds="n=1,t=2ns; dispatch event at a in 1..=4, then add_event(t<a) must panic",
           expect_fail=["Cannot add past event to calender queue"], must_fail=["Cannot add past event to calender queue"]),
     ],
